@@ -45,27 +45,37 @@ func rule041(r *core.Run) {
 		}
 	}
 	var bound, bypass *ssa.If
+	var boundCond ssa.Value
 	core.Instrs(fn, func(in ssa.Instruction) {
 		iff, ok := in.(*ssa.If)
 		if !ok {
 			return
 		}
-		cd := core.CondOf(iff.Cond)
-		s := r.P.SliceOfMany([]ssa.Value{cd.X, cd.Y}, core.SliceOpts{Depth: -1})
-		if !s.Has("field:gofakes3.ListBucketPage.MaxKeys") {
-			return
-		}
-		if k, isK := core.ConstInt(cd.Y); isK && k == 0 && cd.Op == token.GTR && !cd.Neg {
-			bypass = iff
-		} else if cd.Op == token.GEQ || cd.Op == token.GTR || cd.Op == token.EQL {
-			bound = iff
+		// the condition itself, or — for a test of a boolean merged from `a && b` / a named flag — the
+		// operand the true outcome must have come from
+		for _, ec := range expandGuard(iff, true) {
+			if ec.merged || !ec.truth {
+				continue
+			}
+			cd := core.CondOf(ec.cond)
+			s := r.P.SliceOfMany([]ssa.Value{cd.X, cd.Y}, core.SliceOpts{Depth: -1})
+			if !s.Has("field:gofakes3.ListBucketPage.MaxKeys") {
+				continue
+			}
+			if k, isK := core.ConstInt(cd.Y); isK && k == 0 && cd.Op == token.GTR && !cd.Neg {
+				if ec.cond == iff.Cond {
+					bypass = iff
+				}
+			} else if cd.Op == token.GEQ || cd.Op == token.GTR || cd.Op == token.EQL {
+				bound, boundCond = iff, ec.cond
+			}
 		}
 	})
 	if bound == nil || len(adds) < 2 {
 		r.Violated("R04.1", key(name, "page bound"), r.P.Pos(fn.Pos()), "no test of the entry counter against page.MaxKeys (or no entries added): a page can exceed max-keys")
 		return
 	}
-	cd := core.CondOf(bound.Cond)
+	cd := core.CondOf(boundCond)
 	inc := false
 	if b, ok := cd.X.(*ssa.BinOp); ok && b.Op == token.ADD {
 		if k, isK := core.ConstInt(b.Y); isK && k == 1 {
@@ -96,7 +106,11 @@ func rule041(r *core.Run) {
 	}
 	r.Check(leaves, "R04.1", key(name, "bound leaves the loop"), pos(r, bound), "nothing listed after the bound is hit", "entries can still be listed after the page bound was hit")
 	if bypass != nil {
-		r.Check(core.GuardedBy(bound, bypass, true), "R04.1", key(name, "only bypass is MaxKeys <= 0"), pos(r, bypass), "MaxKeys > 0 guards the bound", "the page bound is skipped under a condition other than MaxKeys <= 0")
+		var guarded ssa.Instruction = bound
+		if bi, ok := boundCond.(ssa.Instruction); ok && boundCond != bound.Cond {
+			guarded = bi // the comparison sits behind the `MaxKeys > 0 &&` of a merged condition
+		}
+		r.Check(core.GuardedBy(guarded, bypass, true), "R04.1", key(name, "only bypass is MaxKeys <= 0"), pos(r, bypass), "MaxKeys > 0 guards the bound", "the page bound is skipped under a condition other than MaxKeys <= 0")
 	}
 }
 
@@ -732,14 +746,20 @@ func rule048(r *core.Run) {
 			continue
 		}
 		n++
-		v := core.BlockLocalLoad(ret.Results[0])
-		if c, ok := v.(*ssa.Call); ok && c.Call.IsInvoke() && c.Call.Method.Name() == "Next" {
-			continue
+		// every alternative of the returned value: the inner Next(), the stored outcome, or a plain false
+		for _, v := range altValues(core.BlockLocalLoad(ret.Results[0]), 0) {
+			v = core.BlockLocalLoad(v)
+			if c, ok := v.(*ssa.Call); ok && c.Call.IsInvoke() && c.Call.Method.Name() == "Next" {
+				continue
+			}
+			if ld, ok := v.(*ssa.UnOp); ok && outcomeField != "" && isLoadOf(r, ld, outcomeField) {
+				continue
+			}
+			if k, ok := v.(*ssa.Const); ok && k.Value != nil && k.Value.String() == "false" {
+				continue
+			}
+			okNext = false
 		}
-		if ld, ok := v.(*ssa.UnOp); ok && outcomeField != "" && isLoadOf(r, ld, outcomeField) {
-			continue
-		}
-		okNext = false
 	}
-	r.Check(okNext && n >= 2, "R04.8", key(fname(r, nx), "Next after a Seek reports the Seek's outcome"), r.P.Pos(nx.Pos()), "returns inner.Next() or the stored outcome", "Next can return something other than the inner iterator's Next() or the outcome the last Seek stored (e.g. a constant true): after a Seek that found nothing the listing restarts from the first key")
+	r.Check(okNext && n >= 1, "R04.8", key(fname(r, nx), "Next after a Seek reports the Seek's outcome"), r.P.Pos(nx.Pos()), "returns inner.Next() or the stored outcome", "Next can return something other than the inner iterator's Next() or the outcome the last Seek stored (e.g. a constant true): after a Seek that found nothing the listing restarts from the first key")
 }
